@@ -1,5 +1,6 @@
 """C14 — future attester duties are all subscribed; every selected aggregator aggregates
 (spec/Subscriber.tla)."""
+import importlib.util
 import json
 import os
 import random
@@ -38,6 +39,12 @@ def _own_overlay(pid):
 
 
 vf.overlay_file = _own_overlay
+
+# the aggregation pipeline that the aggregation jobs of this property start (spec/Aggregation.tla, pipeline A)
+_spec = importlib.util.spec_from_file_location(
+    "check_aggregation", os.path.join(os.path.dirname(os.path.abspath(__file__)), "aggregation.py"))
+agg = importlib.util.module_from_spec(_spec)
+_spec.loader.exec_module(agg)
 
 
 def driver(scenarios, tag):
@@ -143,16 +150,24 @@ def run(tier):
         "modulus max(1, size/target) of the scenarios divides 840",
         "the attestation job of a slot runs once, in its slot or later (C02/C03)",
     ]
+    # the exhaustive run and the scenario enumeration of the aggregation pipeline run beside the rest
+    ah = agg.start(PID, "A", tier)
     v.add_mc(vf.tlc_exhaustive(PID, "Subscriber", "MC_Subscriber.cfg"))
     if tier == "thorough":
         v.add_mc(vf.tlc_exhaustive(PID, "Subscriber", "MC_Subscriber_big.cfg", coverage=True, timeout=1200))
     sc = scenarios(tier)
     vf.conformance(v, sc, driver, "Trace_Subscriber", "Trace_Subscriber.cfg", sig_of, nontrivial,
                    chunk=None if tier == "quick" else 1500)
+    # additional conformance block: what the aggregation jobs set up above do when they run
+    # (attestationaggregator/standard Aggregate against pipeline A of Aggregation.tla)
+    agg.finish(v, ah)
     v.coverage["rule"] = ("behaviours of Subscriber.tla generated by TLC simulation (seeded; a sparse and a dense "
                           "constant set), replayed on the real subscriber + aggregator + controller; every other "
                           "scenario is shifted to a seeded far-away epoch; non-trivial = a Subscribe with a future "
-                          "duty or an in-slot attestation of an aggregating committee; distinct by step list")
+                          "duty or an in-slot attestation of an aggregating committee; distinct by step list.  "
+                          "Aggregation pipeline: every behaviour of Scen_Aggregation (A) enumerated by TLC (quick: a "
+                          "seeded sample with every outcome class), replayed on the real attestationaggregator; "
+                          "non-trivial = the aggregate was obtained")
     return v.finish()
 
 
@@ -160,5 +175,8 @@ def replay(path):
     v = vf.Verdict(PID, "quick")
     with open(os.path.join(path, "scenario.json")) as fh:
         s = json.load(fh)
+    if agg.is_mine(s):
+        agg.replay(v, PID, s)
+        return 1 if v.violations else 0
     vf.conformance(v, [s], driver, "Trace_Subscriber", "Trace_Subscriber.cfg", sig_of, nontrivial)
     return 1 if v.violations else 0
